@@ -555,7 +555,7 @@ def g_conc_case(rng):
 
 
 def gen_cases(rng, tier):
-    n_key, n_ev, n_serve, n_e2e, n_par, n_conc = (6000, 3000, 200, 50, 4000, 50) if tier == "quick" else (150000, 60000, 2500, 600, 100000, 600)
+    n_key, n_ev, n_serve, n_e2e, n_par, n_conc = (6000, 3000, 200, 50, 4000, 50) if tier == "quick" else (150000, 60000, 1500, 400, 100000, 400)
     cases = []
     for _ in range(n_key):
         cases.append(g_keypair(rng))
@@ -780,7 +780,7 @@ def run_params(case):
             return getattr(llm, name)
         if hasattr(llm, "model_kwargs") and name in llm.model_kwargs:
             return llm.model_kwargs[name]
-        return "absent"
+        return None  # the object does not know the parameter: a call runs without it
 
     calls = []
     obs = {}
@@ -1147,6 +1147,8 @@ def signature(case, obs, msg):
             return "absent-param-left-as-none"
         return None
     if k == "conc":
+        if " alone: " in (msg or ""):
+            return None  # a single request cannot overlap with anything
         return "overlapping-llm-params-sections" if _sections_overlap(obs.get("sections", [])) else None
     return None
 
